@@ -129,6 +129,8 @@ class EvRun(Run):
                                joined one) or at the commit of an out-of-transaction append
       exc_after_append    (k, kind): raise kind in {'perm','transient'} at the first statement after the
                                k-th INSERT INTO events issued INSIDE a CompleteTask / CompleteStage transaction
+      exc_at_append       (k, kind): the k-th INSERT INTO events issued inside a CompleteTask / CompleteStage transaction
+                               fails itself (is not executed) with kind in {'perm','transient'}
       cas_conflict        k  : bump the stage row's version through a raw connection right before the
                                k-th `UPDATE stage_executions` issued by CompleteTask / CompleteStage
     """
@@ -283,6 +285,14 @@ class EvRun(Run):
         new = super()._on_execute(conn, sql, args)       # pending crash, delivery control
         head = sql.lstrip()[:40].upper()
         if head.startswith("INSERT INTO EVENTS"):
+            f = self.faults.get("exc_at_append")
+            if f and bool(conn.in_transaction) and self.cur_h in ("CompleteTask", "CompleteStage") \
+                    and f[0] == self.n_append_txn + 1 and "excat" not in self.fired:
+                # the append ITSELF fails (a write fault of the event store): the statement is not executed
+                self.fired.append("excat")
+                p = args[0]
+                self.emit({"e": "inject", "kind": "excat-" + f[1], "ent": self.proj.ent(p[3], p[4])})
+                raise (InjectedFault if f[1] == "perm" else InjectedTimeout)("injected: event append failed")
             self._saw_append(conn, args)
         elif head.startswith("UPDATE STAGE_EXECUTIONS SET") and self.cur_h in ("CompleteTask", "CompleteStage"):
             self.n_cas += 1
@@ -926,6 +936,7 @@ def trace_jobs(pid: str, tier: str, seed: int, refs: dict[str, dict], core_: lis
         for grp in chunks(ks, 10):
             jobs.append({"kind": "fifo", "prog": p, "faults": [{"crash_after_append": k} for k in grp]})
         fl = [{"exc_after_append": [k, kind]} for k in range(1, m["appends_txn"] + 1) for kind in ("perm", "transient")]
+        fl += [{"exc_at_append": [k, kind]} for k in range(1, m["appends_txn"] + 1) for kind in ("perm", "transient")]
         fl += [{"cas_conflict": k} for k in range(1, m["cas_points"] + 1)]
         for grp in chunks(fl, 10):
             jobs.append({"kind": "fifo", "prog": p, "faults": grp})
